@@ -138,6 +138,29 @@ Lemma machine_fail_is_step (data : Type) (lock : N) (midcheck postcopy recheck f
   step data lock midcheck postcopy recheck freshrule reachrule s (LsFail data c) = Some (fail_st data s c).
 Proof. intros A B. cbn. rewrite A, B. reflexivity. Qed.
 
+(** * The sync state after a sync that wrote a level-0 file ([Machine.write_file])
+
+    applySyncResult: lastSyncedWALOffset = WALOffset + WALSize of the new file, syncedToWALEnd =
+    (that offset = size of the -wal file), reachedWALEnd sticky.  The entry is the machine's own
+    [write_file] on a state with as many slots as the -wal file has frames.
+    input  [syncedToWALEnd before; reachedWALEnd before; frame slots in the -wal file (stale tail
+            included); (WALOffset + WALSize - 32) / frame size of the file just written]
+    output [syncedToWALEnd; reachedWALEnd; lastSyncedWALOffset (frames)] after the step *)
+Definition machine_sync_state (x : sx) : sx :=
+  let nfr := N.to_nat (asN (nthx 2 x)) in
+  let newcfo := N.to_nat (asN (nthx 3 x)) in
+  let s0 : state N :=
+    mkSt N (fun _ => 0) 1 0 [] 0 1 (repeat (O, mkF N 1 1 0) nfr) (Some 1%nat) false true [] 0 0 0
+         (mkSess (asB (nthx 0 x)) 0 false None (asB (nthx 1 x))) Idle Lost [] [] in
+  let s1 := write_file N s0 (mkLtx N (fun _ => None) 1) newcfo Lost in
+  SL [sxB (flag N s1); sxB (reached N s1); sxN (N.of_nat (lastoff N s1))].
+
+Example machine_sync_state_examples :
+  machine_sync_state (SL [sxB false; sxB false; sxN 5; sxN 5]) = SL [sxB true; sxB true; sxN 5] /\
+  machine_sync_state (SL [sxB true; sxB true; sxN 5; sxN 3]) = SL [sxB false; sxB true; sxN 3] /\
+  machine_sync_state (SL [sxB false; sxB false; sxN 5; sxN 3]) = SL [sxB false; sxB false; sxN 3].
+Proof. vm_compute. repeat split; reflexivity. Qed.
+
 (** * The sync state after a run-time ResetLocalState (/repo commit a3c8cc9)
 
     The reset removes the local level-0 files and re-fetches the replica's newest one; the level-0
